@@ -25,7 +25,7 @@ RULE = ("structured URL cases rendered to strings: (1) a directed corpus; (2) fo
         "non-trivial = parseable by the reference reader and containing at least one '%', non-ASCII, space, port, userinfo, dot segment or wrapper; distinct = distinct (url, options).")
 ASSUMPTIONS = ["oracle: reference reader R = urllib.parse.urlsplit + strict single-pass percent decoder; '+' is a literal plus; host compared modulo case and IDNA spelling",
                "raw control characters and surrounding whitespace are removed from the expected side too (documented cleaning)", "'u:@h' == 'u@h'",
-               "an empty segment directly before '..' may be resolved in either order (squeeze-then-resolve or RFC 3986 order)", "unparseable inputs (urlsplit raises, bad port, no host) are counted, not judged"]
+               "path resolution: empty segments are dropped first, then '.' and '..' are resolved", "unparseable inputs (urlsplit raises, bad port, no host) are counted, not judged"]
 FLOORS = ["judged", "opt-quoted", "opt-unquoted", "opt-strip_fragment", "opt-default_protocol-applied", "host-idn", "host-punycode", "host-ipv6", "port-default-dropped",
           "port-nondefault", "path-dot-segment", "path-trailing-slash", "userinfo-password", "wrap-control", "probe-unquote-path", "probe-unquote-auth", "probe-unquote-query",
           "probe-unquote-fragment", "probe-safely_quote", "unsplit-form-checked"]
